@@ -71,6 +71,15 @@ def run(ctx):
     if ps:
         body = ctx.body(VCI)
         rets = ret_paths(ps)
+        # "the first recorded checksum with the requested digest, or MissingChecksum": the for-loop with `continue` and
+        # `.iter().find(|c| c.digest == digest)` have one normal form; on the found paths the digest test is a condition either way
+        fm = first_match(ctx, VCI, ps)
+        ctx.check(fm is not None and isinstance(fm["coll"], tuple) and fm["coll"][0] == "field" and fm["coll"][3] == "checksums", "D2-DIGEST-FILTER", VCI, "first-match-over-checksums",
+                  "works on the first recorded checksum that passes a test (%s form)" % (fm["form"] if fm else "?"),
+                  "verify_checksum_internal is not `the first checksum of self.checksums passing a test, else a fallback`", fn_span(body), nontrivial=False)
+        if fm is not None:
+            rets = [p for p in rets if p not in [getattr(q, "p", q) for q in fm["found"]]] + list(fm["found"])
+        exhausted = [getattr(q, "p", q) for q in fm["exhausted"]] if fm else []
         oks = [p for p in rets if unwrap_ok(p.end[1]) is not None]
         errs = [(p, agg_variant(unwrap_err(p.end[1]))) for p in rets if unwrap_err(p.end[1]) is not None and agg_variant(unwrap_err(p.end[1]))]
 
@@ -118,8 +127,9 @@ def run(ctx):
         mc = [(p, a) for p, a in errs if a[1] == "MissingChecksum"]
         ok = bool(mc)
         for p, a in mc:
-            nx = [c for c in p.conds() if c.term[0] == "discr" and is_call(c.term[1], "Iter as std::iter::Iterator>::next")]
-            ok = ok and bool(nx) and nx[-1].fact == ("eq", 0) and strip_refs(a[2][1]) == ("param", 3)
+            ok = ok and getattr(p, "p", p) in exhausted and strip_refs(a[2][1]) == ("param", 3)
+        # ... and nothing else is returned when no checksum has the digest
+        ok = ok and all(any(p is q or getattr(p, "p", p) is q for p, a in mc) for q in exhausted)
         ctx.check(ok, "D2-MISSING", VCI, "missing-checksum", "loop exhausted -> MissingChecksum(path, digest)",
                   "MissingChecksum is not returned exactly when no recorded checksum has the requested digest", fn_span(body))
         errprop(ctx, VCI, ps, body, rule="D2-ERRPROP", no_effects_after_error=(), floor=2)
@@ -249,6 +259,18 @@ def run(ctx):
         body = ctx.body(fn)
         backs = [p for p in ps if p.end[0] == "back"]
         ok = bool(backs)
+        if not backs and fn == "distinfo::Distinfo::verify_checksums":
+            # delegation: the verdicts are Entry::verify_checksums of the entry found for the same path (that function carries this rule itself)
+            EV = "distinfo::Entry::verify_checksums"
+            okp = [p for p in ret_paths(ps) if is_call(strip_refs(p.end[1]), EV)]
+            ok = bool(okp) and bool(ctx.paths(EV))
+            for p in okp:
+                t = strip_refs(p.end[1])
+                ent = strip_refs(call_args(t)[0])
+                fe = find_calls(ent, FE)
+                ok = ok and isinstance(ent, tuple) and ent[0] == "field" and isinstance(ent[1], tuple) and ent[1][0] == "downcast" and ent[1][2] == "Ok" and bool(fe) \
+                    and strip_refs(fe[0]) == strip_refs(ent[1][1]) and mentions(call_args(fe[0])[1], lambda s: s == ("param", 2)) and strip_refs(call_args(fe[0])[0]) == ("param", 1) \
+                    and mentions(call_args(t)[1], lambda s: s == ("param", 2)) and not mentions(call_args(t)[1], lambda s: is_call(s, FE))
         for p in backs:
             pu = [e for e in p.events if ev_is(e, "Vec::push")]
             nx = [e for e in p.events if e.kind == "call" and e.name.endswith("::next") and e.bb in body.loops]
